@@ -177,6 +177,19 @@ theorem sortRows_flat (narrow : Int → Int) (hn : ∀ L : Int, 0 ≤ L → narr
       rw [e2, ih']
       simp [List.append_assoc]
 
+theorem rowRange_fixed (n rb re b e : Int) (h : rowRange true n rb re = some (b, e)) :
+    0 ≤ b ∧ b ≤ e ∧ e ≤ n ∧ b = (if rb < 0 then 0 else rb) ∧ e = (if re < 0 then n else re) := by
+  unfold rowRange at h
+  simp only [] at h
+  generalize (if rb < 0 then (0 : Int) else rb) = b0 at h ⊢
+  generalize (if re < 0 then n else re) = e0 at h ⊢
+  split at h
+  · rename_i hc
+    injection h with h; injection h with h1 h2
+    simp at hc
+    omega
+  · contradiction
+
 theorem wrap32_le (L : Int) (h : 0 ≤ L) : wrap32 L ≤ L := by
   unfold wrap32
   simp only []
